@@ -13,9 +13,11 @@ def filt(repo_src, dst):
     ren = [('hash_full_result_seq', 'PoseidonGoldilocks_hash_full_result_seq'), ('hash_full_result', 'PoseidonGoldilocks_hash_full_result')]
     txt = cify.cify(f, P, 'PoseidonGoldilocks::linear_hash_seq', 'PoseidonGoldilocks_linear_hash_seq', ren, {0: 'LOOP_CONTRACT_SPONGE'})
     txt += cify.cify(f, P, 'PoseidonGoldilocks::linear_hash', 'PoseidonGoldilocks_linear_hash', ren, {0: 'LOOP_CONTRACT_SPONGE'})
+    ren512 = [('hash_full_result_avx512', 'PoseidonGoldilocks_hash_full_result_avx512')]
+    txt += cify.cify(f, P, 'PoseidonGoldilocks::linear_hash_avx512', 'PoseidonGoldilocks_linear_hash_avx512', ren512, {0: 'LOOP_CONTRACT_SPONGE512'})
     f.files = {'gen_linear_hash.c': txt}
     return f
-GROUPS = {'m2': Group('m2', filt, c=['props/C07/contracts.c'], repo_cpp=[])}
+GROUPS = {'m2': Group('m2', filt, c=['props/C07/contracts.c'], repo_cpp=[]), 'm2_512': Group('m2_512', filt, c=['props/C07/contracts.c'], defines=['VF_AVX512'], repo_cpp=[])}
 # the input object is abstract (zero-size, contents INPUT(.)): pointer arithmetic into it cannot be bounds-checked by CBMC; the explicit
 # assertion 'read inside the declared input length' in the copy model takes the place of that check
 CHK = ['--bounds-check', '--pointer-check', '--undefined-shift-check', '--signed-overflow-check', '--div-by-zero-check']
@@ -24,11 +26,16 @@ UNITS = [
          checks=CHK, flags=['--unwind', '14', '--unwinding-assertions'], functions=['PoseidonGoldilocks::linear_hash_seq (src/%s) [C-ified, loop contract]' % P], timeout=600),
     Unit('linear_hash', 'm2', 'PoseidonGoldilocks_linear_hash', harness='hl_PoseidonGoldilocks_linear_hash', light=True, loops='contract',
          checks=CHK, flags=['--unwind', '14', '--unwinding-assertions'], functions=['PoseidonGoldilocks::linear_hash (src/%s) [C-ified, loop contract]' % P], timeout=600),
+    Unit('linear_hash_avx512', 'm2_512', 'PoseidonGoldilocks_linear_hash_avx512', harness='hl_PoseidonGoldilocks_linear_hash_avx512', light=True, loops='contract',
+         checks=CHK, flags=['--unwind', '14', '--unwinding-assertions'], functions=['PoseidonGoldilocks::linear_hash_avx512 (src/%s) [C-ified, loop contract; two rows]' % P], timeout=3000, tier='thorough',
+         note='did not finish within the quick budget (600 s); run in the thorough tier only'),
 ]
 TRUSTED_BASE = ['M2 C-ification token rules (vf/cify.py) and the element-wise memcpy/memset model', 'the permutation is abstracted by a ghost monitor returning arbitrary values (its own correctness is C06)',
                 'CBMC loop-contract instrumentation (goto-instrument --apply-loop-contracts), cadical']
 ASSUMPTIONS = ['size <= 2^40 elements (object-size limit of the memory model)']
 EXPLANATION = 'All lengths: the loop is closed by an inductive invariant over the ghost monitor state; no unwinding bound on the input length.'
 MANIFEST_ENTRY = dict(category='proof', technique='CBMC loop contracts on the mechanically C-ified function + ghost monitor of the permutation calls',
-    text='For every length up to 2^40 the scalar and AVX2 linear_hash perform exactly the sponge schedule (blocks of 8, zero padding, capacity feedback, digest = first four outputs) and read exactly the declared input; the pass-through for at most four elements is exact.',
-    note='Permutation abstracted (C06 covers it); C-ification rules and memcpy model trusted; AVX-512 two-at-a-time variant: see evidence.')
+    text='For every length up to 2^40 the scalar, AVX2 and two-at-a-time AVX512 linear_hash perform exactly the sponge schedule (blocks of 8, zero padding, capacity feedback, digest = first four outputs) and read exactly the declared input; the pass-through for at most four elements is exact.',
+    note='Permutation abstracted (C06 covers it); C-ification rules and memcpy model trusted.')
+NATIVE_FLAGS = ['-mavx2', '-mavx512f', '-D__AVX512__']
+NATIVE_SOURCES = []
